@@ -18,7 +18,7 @@ PROP = {
         "Wm.Route.returned_outputs_published", "Wm.Route.outputs_keep_own_context", "Wm.Route.published_iff",
         # RunHandlers as an operation on the router state
         "Wm.Route.rexec_keeps_started", "Wm.Route.runHandlers_idempotent", "Wm.Route.decorated_exactly_once",
-        "Wm.Route.unstarted_undecorated", "Wm.Route.failed_attempt_then_retry",
+        "Wm.Route.unstarted_undecorated", "Wm.Route.failed_attempt_then_retry", "Wm.Route.nil_publisher_never_decorated",
         "Wm.Route.nopub_middleware_outputs_nack", "Wm.Route.routes_to_own_fn", "Wm.Route.route_order_irrelevant",
         "Wm.Route.only_own_function", "Wm.Route.subscriptions_bijective",
     ],
@@ -61,7 +61,10 @@ PROP = {
             "token K (a fifth of the random configurations): application code keeps values of its own in the message context under "
             "the plain string keys handler_name / publisher_name / subscriber_name / subscribe_topic / publish_topic (in a subscriber "
             "decorator and in a middleware, i.e. after the router set its values) - the accessors must still report the router's. "
-            "Every message object (consumed copy, each fresh output, "
+            "stop_and_re_add_under_the_same_name (5 fixed programs): a running handler is stopped (T<n>, never the last one), a new "
+            "handler is added under ITS NAME (on the same or another subscriber / topic / publisher) and started by RunHandlers - it is "
+            "a handler of its own: decorated like any other, context values inside the function and on the outputs, the stopped one "
+            "receives nothing. Every message object (consumed copy, each fresh output, "
             "each middleware output) carries a marker on its OWN context from its creation; the publisher records for every element "
             "of every call which marker its context still has (own context kept, none replaced by another element's). Observation canonical per handler (Go map order in "
             "RunHandlers is random). Oracles: model observation equality and the property monitor. Non-trivial = >= 2 handlers and "
@@ -69,7 +72,7 @@ PROP = {
     "trusted_base": [
         "Lean 4.33.0 kernel; axioms per theorem listed under theorem_axioms (subset of propext, Classical.choice, Quot.sound)",
         "extractor harness/cmd/extract/c08.go (go/ast: the set statements of handler.addHandlerContext with their guards if any, the "
-        "key each of the five accessors reads, the values of the key constants; 28 structural facts: the context key type is a private defined type (not an alias of string), the subscriber context decorator is applied unconditionally, RunHandlers decorates inside its one loop after the started-guard, the exact control-flow skeletons of handleMessage and publishProducedMessages, five unconditional WithValue sets,  AddHandler stores its parameters and computes the "
+        "key each of the five accessors reads, the values of the key constants; 29 structural facts: decorateHandlerPublisher leaves a nil publisher alone, the context key type is a private defined type (not an alias of string), the subscriber context decorator is applied unconditionally, RunHandlers decorates inside its one loop after the started-guard, the exact control-flow skeletons of handleMessage and publishProducedMessages, five unconditional WithValue sets,  AddHandler stores its parameters and computes the "
         "type names from its own objects, RunHandlers subscribes h.subscriber on h.subscribeTopic and gives the channel to the same "
         "handler, handleMessage passes the returned slice untouched through addHandlerContext to one Publish(h.publishTopic, "
         "produced...) on h.publisher, guards for empty output / nil publisher, disabledPublisher) and the interpreter "
@@ -105,6 +108,10 @@ PROP = {
         "nothing, theorem failed_attempt_then_retry). A SUBSCRIBER decorator failing once (token E<id>!, accepted but not "
         "generated) makes the unchanged code wrap the late handler's publisher twice on the retry - reported as a defect of the "
         "unchanged tree, see the hand-back.",
+        "A handler registered with a nil publisher is not decorated (fix: decorateHandlerPublisher returns at once when "
+        "h.publisher == nil): model RH.pubPath stays [] (theorem nil_publisher_never_decorated), it is Nacked exactly when its "
+        "chain returns messages, and closing the router does not call Close on a wrapped nil (cases "
+        "nil_publisher_with_transform_publisher_decorator, token M<id> = watermill's MessageTransformPublisherDecorator).",
         "Message objects are not shared between two handlers at the same time (that would be a data race on SetContext).",
     ],
     "explanation": "routes_to_own_fn / only_own_function / route_order_irrelevant: for every configuration, script and map order a "
@@ -121,7 +128,7 @@ PROP = {
                   "obey the model's law on every run; model and an independent monitor are compared with the real Router on all "
                   "two-handler wirings and on random configurations of 1..6 handlers with interleaved streams.",
     "level_note": "Proved about the model, not about the Go code; the routing theorems are close to the model's definitions, the "
-                  "weight is on the correspondence (differential harness with pointer-identity recording publishers, 28 structural "
+                  "weight is on the correspondence (differential harness with pointer-identity recording publishers, 29 structural "
                   "facts, generated context code + 4 tie theorems, -race). The context clause is proved without a guard on the "
                   "incoming context (fix 5846d09); the pre-fix behaviour is kept as an Old witness model.",
     "technique": "Lean 4 theorems over a hand-written executable model + generated deep-embedded context code with tie theorems + "
